@@ -47,9 +47,10 @@ def scalar(rng, kind):
     if kind == "str_bool":
         return rng.choice(["true", "false", "True"])
     if kind == "str_date":
-        return rng.choice(["2020-01-02", "1999-12-31"])
+        # (a few look like dates but are not: month 0 / day 30 of February / month 13)
+        return rng.choice(["2020-01-02", "1999-12-31"] * 6 + ["0000-00-00", "2021-02-30", "2021-13-01"])
     if kind == "str_datetime":
-        return rng.choice(["2020-01-02T03:04:05", "2018-11-30T12:00:00Z"])
+        return rng.choice(["2020-01-02T03:04:05", "2018-11-30T12:00:00Z"] * 6 + ["2021-02-30T03:04:05", "2020-01-02T25:04:05"])
     if kind == "str_time":
         return rng.choice(["12:30", "03:04:05"])
     if kind == "str_enum":
@@ -164,6 +165,10 @@ class Gen:
                 fields = [[key, self._field_spec(sid), rng.random() < k["p_missing"]] for key in keys[:width]]
             if not fields:
                 fields = [[self.keys[0], ["s", ["int"]], False]]
+            if rng.random() < k.get("p_pk_pair", 0.0):
+                fields = [f for f in fields if f[0] not in ("id", "pk")]
+                for key in rng.sample(["id", "pk"], 2):
+                    fields.insert(rng.randint(0, len(fields)), [key, ["s", ["int"]], False])
             have = {f[0] for f in fields}
             for f in list(fields):
                 # model names come from the keys that hold objects: give those keys the interesting spellings more often
@@ -199,6 +204,10 @@ class Gen:
             return [[scalar(rng, "int")], []] if rng.random() < 0.5 else [[None], [scalar(rng, "str_plain")]]
         if kind == "dict_empty":
             return {}
+        if kind == "dict_like" and rng.random() < self.k.get("p_big_dict", 0.0) and not self.k.get("bulk"):
+            n = rng.choice([199, 200, 201, 230, 260, 300])
+            return {str(i): scalar(rng, "int" if rng.random() < 0.97 else rng.choice(["str_plain", "null", "float"]))
+                    for i in range(n)}
         if kind == "dict_like":
             return {str(rng.randrange(100)): scalar(rng, rng.choice(["int", "str_plain", "null"]))
                     for _ in range(rng.randint(1, 3))}
@@ -336,6 +345,10 @@ def draw_knobs(rng: random.Random, **fixed):
         "p_numeric_twin": rng.choice([0.0, 0.0, 0.5]),
         "bulk": rng.choice([0] * 240 + [1001, 1200, 2100]),
         "p_shuffle_keys": rng.choice([0.0, 0.0, 0.3, 1.0]),
+        # both conventional key names of a table (id AND pk) as required integers in one object
+        "p_pk_pair": rng.choice([0.0, 0.0, 0.0, 0.35]),
+        # boundary size: a mapping-like object with hundreds of entries (a few of them of another kind)
+        "p_big_dict": rng.choice([0.0] * 7 + [0.2]),
     }
     if k["chain"]:
         k.update(n_models=1, depth=2, samples=max(3, k["samples"]), p_null=0.0, bulk=0)
